@@ -248,12 +248,12 @@ impl MDBShardInfo {
             /*@AUX*/ old(reader).failed() ==> final(reader).failed(),
             // Ok(info): info is the record parsed at file_info_offset + 48*idx — header, entries, verification entries and
             // metadata-ext exactly as the bytes there decode — and it is a record, not the section's bookend
-            /*@C09*/ r matches Ok(info) ==> file_block_ok(old(reader).data(), fi_pos(*self, file_entry_index), info)
+            /*@C09,C01*/ r matches Ok(info) ==> file_block_ok(old(reader).data(), fi_pos(*self, file_entry_index), info)
                 && info.metadata.file_hash != bookend_hash(),
             // an index pointing at the bookend (no record) yields Err, never a record
-            /*@C09*/ file_hdr_at(old(reader).data(), fi_pos(*self, file_entry_index)).file_hash == bookend_hash() ==> r is Err,
+            /*@C09,C01*/ file_hdr_at(old(reader).data(), fi_pos(*self, file_entry_index)).file_hash == bookend_hash() ==> r is Err,
             // and an error only then or after a failed reader operation
-            /*@C09*/ r is Err ==> final(reader).failed()
+            /*@C09,C01*/ r is Err ==> final(reader).failed()
                 || file_hdr_at(old(reader).data(), fi_pos(*self, file_entry_index)).file_hash == bookend_hash(),
 //@ end
 
@@ -284,15 +284,15 @@ impl MDBShardInfo {
         ensures
             /*@AUX*/ final(reader).data() == old(reader).data(),
             // the whole table, row by row, in table order
-            /*@C09*/ ret matches Ok(v) ==> v@.len() == self.metadata.cas_lookup_num_entry
+            /*@C09,C01*/ ret matches Ok(v) ==> v@.len() == self.metadata.cas_lookup_num_entry
                 && forall|i: int| 0 <= i < v@.len() ==> #[trigger] v@[i] == cl_row(*self, old(reader).data(), i),
-            /*@C09*/ ret is Err ==> final(reader).failed(),
+            /*@C09,C01*/ ret is Err ==> final(reader).failed(),
 //@ loop 1
             invariant
                 reader.data() == old(reader).data(),
-                /*@C09*/ reader.pos() == self.metadata.cas_lookup_offset as int + 12 * vx_it1,
-                /*@C09*/ clv(cas_lookup).len() == vx_it1,
-                /*@C09*/ forall|i: int| 0 <= i < clv(cas_lookup).len() ==> #[trigger] clv(cas_lookup)[i] == cl_row(*self, old(reader).data(), i),
+                /*@C09,C01*/ reader.pos() == self.metadata.cas_lookup_offset as int + 12 * vx_it1,
+                /*@C09,C01*/ clv(cas_lookup).len() == vx_it1,
+                /*@C09,C01*/ forall|i: int| 0 <= i < clv(cas_lookup).len() ==> #[trigger] clv(cas_lookup)[i] == cl_row(*self, old(reader).data(), i),
 //@ end
 }
 
@@ -311,8 +311,8 @@ impl MDBInMemoryShard {
 //@ contract
         ensures
             // exactly the record stored under the hash in the file map; None iff there is none
-            /*@C09*/ self.file_content@.contains_key(*file_hash) ==> r == Some(self.file_content@[*file_hash]),
-            /*@C09*/ !self.file_content@.contains_key(*file_hash) ==> r is None,
+            /*@C09,C01*/ self.file_content@.contains_key(*file_hash) ==> r == Some(self.file_content@[*file_hash]),
+            /*@C09,C01*/ !self.file_content@.contains_key(*file_hash) ==> r is None,
 //@ body-start
         broadcast use {mh_cmp_axioms::axiom_merklehash_cmp_model, vstd::std_specs::btree::group_btree_axioms};
 //@ end
@@ -416,25 +416,25 @@ impl ShardFileManager {
 //@ contract
         ensures
             // HEAD's special case: the zero hash is answered with the default (empty) record and no shard, whatever is stored
-            /*@C09*/ *file_hash == zero_hash() ==> (r matches Ok(Some((rec, None))) && is_default_file_info(rec)),
+            /*@C09,C01*/ *file_hash == zero_hash() ==> (r matches Ok(Some((rec, None))) && is_default_file_info(rec)),
             // (rec, None): only if the in-memory state holds rec under h
-            /*@C09*/ *file_hash != zero_hash() ==> (r matches Ok(Some((rec, None))) ==>
+            /*@C09,C01*/ *file_hash != zero_hash() ==> (r matches Ok(Some((rec, None))) ==>
                 self.mem_files().contains_key(*file_hash) && rec == self.mem_files()[*file_hash]),
             // and a record the in-memory state holds is returned (in-memory first)
-            /*@C09*/ *file_hash != zero_hash() && self.mem_files().contains_key(*file_hash) ==>
+            /*@C09,C01*/ *file_hash != zero_hash() && self.mem_files().contains_key(*file_hash) ==>
                 r == Ok::<Option<(MDBFileInfo, Option<MerkleHash>)>, MDBShardError>(Some((self.mem_files()[*file_hash], None))),
             // (rec, Some(sh)): only if a registered shard whose hash is sh contains rec under h — the first one in manager order
-            /*@C09*/ *file_hash != zero_hash() ==> (r matches Ok(Some((rec, Some(sh)))) ==>
+            /*@C09,C01*/ *file_hash != zero_hash() ==> (r matches Ok(Some((rec, Some(sh)))) ==>
                 !self.mem_files().contains_key(*file_hash)
                 && exists|cj: int, sj: int| is_loc(self.colls(), cj, sj)
                     && shard_has(#[trigger] shard_at(self.colls(), cj, sj), *file_hash, rec)
                     && shard_at(self.colls(), cj, sj).shard_hash == sh
                     && earlier_lack(self.colls(), *file_hash, cj, sj)),
             // not found: only if neither the in-memory state nor ANY registered shard (all collections, all lists) contains h
-            /*@C09*/ *file_hash != zero_hash() ==> (r matches Ok(None) ==>
+            /*@C09,C01*/ *file_hash != zero_hash() ==> (r matches Ok(None) ==>
                 !self.mem_files().contains_key(*file_hash) && all_lack(self.colls(), *file_hash)),
             // errors propagate: the error of the first shard that does not answer Ok(None)
-            /*@C09*/ *file_hash != zero_hash() ==> (r matches Err(e) ==>
+            /*@C09,C01*/ *file_hash != zero_hash() ==> (r matches Err(e) ==>
                 !self.mem_files().contains_key(*file_hash)
                 && exists|cj: int, sj: int| is_loc(self.colls(), cj, sj)
                     && shard_answer(#[trigger] shard_at(self.colls(), cj, sj), *file_hash) == Err::<Option<MDBFileInfo>, MDBShardError>(e)
@@ -443,24 +443,24 @@ impl ShardFileManager {
             invariant
                 *current_shards == self.shard_bookkeeper.inner,
                 *file_hash != zero_hash(),
-                /*@C09*/ !self.mem_files().contains_key(*file_hash),
+                /*@C09,C01*/ !self.mem_files().contains_key(*file_hash),
                 // the list walked IS the bookkeeper's whole collection list
-                /*@C09*/ vx_s1@ == self.colls(),
+                /*@C09,C01*/ vx_s1@ == self.colls(),
                 vx_n1 <= self.colls().len(),
                 // every shard of every collection visited so far lacks h
-                /*@C09*/ earlier_lack(self.colls(), *file_hash, vx_n1 as int, 0),
+                /*@C09,C01*/ earlier_lack(self.colls(), *file_hash, vx_n1 as int, 0),
             decreases self.colls().len() - vx_n1,
 //@ loop 2
                 invariant
                     *current_shards == self.shard_bookkeeper.inner,
                     *file_hash != zero_hash(),
-                    /*@C09*/ !self.mem_files().contains_key(*file_hash),
+                    /*@C09,C01*/ !self.mem_files().contains_key(*file_hash),
                     1 <= vx_n1 <= self.colls().len(),
                     *sc == self.colls()[vx_n1 - 1],
                     // the list walked IS this collection's whole shard list
-                    /*@C09*/ vx_s2@ == sc.shard_list@,
+                    /*@C09,C01*/ vx_s2@ == sc.shard_list@,
                     vx_n2 <= sc.shard_list@.len(),
-                    /*@C09*/ earlier_lack(self.colls(), *file_hash, vx_n1 - 1, vx_n2 as int),
+                    /*@C09,C01*/ earlier_lack(self.colls(), *file_hash, vx_n1 - 1, vx_n2 as int),
                 decreases sc.shard_list@.len() - vx_n2,
 //@ before `if let Some(fi) = si.get_file_reconstruction_info`
                 // the shard asked in this iteration IS registered shard (vx_n1 - 1, vx_n2 - 1)
@@ -476,7 +476,7 @@ impl ShardFileManager {
             total_bytes(spec_materialized_bytes(self.current_state.inner), self.colls(), f_mat()) <= u64::MAX,
         ensures
             // the in-memory total plus the footer total of EVERY registered shard (all collections, all lists), each exactly once
-            /*@C09*/ r matches Ok(v) && v == total_bytes(spec_materialized_bytes(self.current_state.inner), self.colls(), f_mat()),
+            /*@C09,C01*/ r matches Ok(v) && v == total_bytes(spec_materialized_bytes(self.current_state.inner), self.colls(), f_mat()),
 //@ body-start
         let ghost m0 = spec_materialized_bytes(self.current_state.inner) as int; let ghost cs = self.colls(); let ghost f = f_mat();
         proof { lemma_colls_sum_mono(cs, f, 0, cs.len() as int); }
@@ -484,18 +484,18 @@ impl ShardFileManager {
             invariant
                 m0 == spec_materialized_bytes(self.current_state.inner), cs == self.colls(), f == f_mat(), f_nonneg(f),
                 m0 + colls_sum(cs, f, cs.len() as int) <= u64::MAX,
-                /*@C09*/ vx_s1@ == cs,
+                /*@C09,C01*/ vx_s1@ == cs,
                 vx_n1 <= cs.len(),
-                /*@C09*/ bytes == m0 + colls_sum(cs, f, vx_n1 as int),
+                /*@C09,C01*/ bytes == m0 + colls_sum(cs, f, vx_n1 as int),
             decreases cs.len() - vx_n1,
 //@ loop 2
                 invariant
                     m0 == spec_materialized_bytes(self.current_state.inner), cs == self.colls(), f == f_mat(), f_nonneg(f),
                     m0 + colls_sum(cs, f, cs.len() as int) <= u64::MAX,
                     1 <= vx_n1 <= cs.len(), *ksc == cs[vx_n1 - 1],
-                    /*@C09*/ vx_s2@ == ksc.shard_list@,
+                    /*@C09,C01*/ vx_s2@ == ksc.shard_list@,
                     vx_n2 <= vx_s2@.len(),
-                    /*@C09*/ bytes == m0 + colls_sum(cs, f, vx_n1 - 1) + list_sum(ksc.shard_list@, f, vx_n2 as int),
+                    /*@C09,C01*/ bytes == m0 + colls_sum(cs, f, vx_n1 - 1) + list_sum(ksc.shard_list@, f, vx_n2 as int),
                 decreases vx_s2@.len() - vx_n2,
 //@ before `bytes += si.shard.materialized_bytes();`
                 proof {
@@ -511,7 +511,7 @@ impl ShardFileManager {
         requires
             total_bytes(spec_stored_bytes(self.current_state.inner), self.colls(), f_sto()) <= u64::MAX,
         ensures
-            /*@C09*/ r matches Ok(v) && v == total_bytes(spec_stored_bytes(self.current_state.inner), self.colls(), f_sto()),
+            /*@C09,C01*/ r matches Ok(v) && v == total_bytes(spec_stored_bytes(self.current_state.inner), self.colls(), f_sto()),
 //@ body-start
         let ghost m0 = spec_stored_bytes(self.current_state.inner) as int; let ghost cs = self.colls(); let ghost f = f_sto();
         proof { lemma_colls_sum_mono(cs, f, 0, cs.len() as int); }
@@ -519,18 +519,18 @@ impl ShardFileManager {
             invariant
                 m0 == spec_stored_bytes(self.current_state.inner), cs == self.colls(), f == f_sto(), f_nonneg(f),
                 m0 + colls_sum(cs, f, cs.len() as int) <= u64::MAX,
-                /*@C09*/ vx_s1@ == cs,
+                /*@C09,C01*/ vx_s1@ == cs,
                 vx_n1 <= cs.len(),
-                /*@C09*/ bytes == m0 + colls_sum(cs, f, vx_n1 as int),
+                /*@C09,C01*/ bytes == m0 + colls_sum(cs, f, vx_n1 as int),
             decreases cs.len() - vx_n1,
 //@ loop 2
                 invariant
                     m0 == spec_stored_bytes(self.current_state.inner), cs == self.colls(), f == f_sto(), f_nonneg(f),
                     m0 + colls_sum(cs, f, cs.len() as int) <= u64::MAX,
                     1 <= vx_n1 <= cs.len(), *ksc == cs[vx_n1 - 1],
-                    /*@C09*/ vx_s2@ == ksc.shard_list@,
+                    /*@C09,C01*/ vx_s2@ == ksc.shard_list@,
                     vx_n2 <= vx_s2@.len(),
-                    /*@C09*/ bytes == m0 + colls_sum(cs, f, vx_n1 - 1) + list_sum(ksc.shard_list@, f, vx_n2 as int),
+                    /*@C09,C01*/ bytes == m0 + colls_sum(cs, f, vx_n1 - 1) + list_sum(ksc.shard_list@, f, vx_n2 as int),
                 decreases vx_s2@.len() - vx_n2,
 //@ before `bytes += si.shard.stored_bytes();`
                 proof {
@@ -542,7 +542,7 @@ impl ShardFileManager {
 //@ extract mdb_shard/src/shard_file_manager.rs in `impl ShardFileManager` fn shard_is_registered
 //@ ret r
 //@ contract
-        ensures /*@C09*/ r == self.by_hash().contains_key(*shard_hash),
+        ensures /*@C09,C01*/ r == self.by_hash().contains_key(*shard_hash),
 //@ end
 }
 
